@@ -279,13 +279,21 @@ func simpleNode(n *node) bool {
 	switch n.k {
 	case kNil, kTru, kFix, kChr, kStr, kSym, kVec, kLst:
 		return true
+	case kBig: // as the reader makes it: outside int64
+		return !n.z.IsInt64()
+	case kRat: // numerator below 2^62 (the bound of sym_guard)
+		return new(big.Int).Abs(n.z).Cmp(pow2(62)) < 0
 	}
 	return false
 }
 
 // simpleAtom: a key of the kinds on which the table is expected to be a finite map under eql
 func (g *gen) simpleAtom() *node {
-	switch g.rng.Intn(13) {
+	switch g.rng.Intn(16) {
+	case 13, 14, 15: // bignums and ratios: found by value since repair C16-5 (formerly keyed by pointer)
+		return common.Pick(g.rng, []*node{nBig(e20), nBig(add(e20, 1)), nBig(p63), nBig(p64), nBig(new(big.Int).Neg(e20)), nBig(new(big.Int).Neg(add(p63, 1))),
+			nRat(big.NewInt(1), big.NewInt(2)), nRat(big.NewInt(-1), big.NewInt(2)), nRat(big.NewInt(1), big.NewInt(3)), nRat(big.NewInt(3), big.NewInt(2)),
+			nRat(big.NewInt(2), big.NewInt(4)), nRat(add(pow2(61), 1), big.NewInt(2))})
 	case 12: // a list: the table refuses it with a type-error (formerly a host fault, C16-hash-list-key-faults)
 		return common.Pick(g.rng, []*node{nLst(nFix(1), nFix(2)), nLst(), nLst(nSym("a")), nLst(nFix(1), nTl(nFix(2))), nLst(nStr("k"), nLst(nFix(5)))})
 	case 0:
@@ -560,12 +568,26 @@ func mapObs(s *slip.Scope, ht slip.Object, pool []aref) string {
 	return "OEntries [" + strings.Join(items, "; ") + "]"
 }
 
+// sameGoKey: is b the key a table reaches with a?  Go's == on the interface values, except that HashTable.Key
+// resolves a bignum or ratio to the stored key of the same type and value (repair C16-5).
 func sameGoKey(a, b slip.Object) (eq bool) {
 	defer func() {
 		if recover() != nil {
 			eq = false
 		}
 	}()
+	switch ta := a.(type) {
+	case *slip.Bignum:
+		if tb, ok := b.(*slip.Bignum); ok {
+			return (*big.Int)(ta).Cmp((*big.Int)(tb)) == 0
+		}
+		return false
+	case *slip.Ratio:
+		if tb, ok := b.(*slip.Ratio); ok {
+			return (*big.Rat)(ta).Cmp((*big.Rat)(tb)) == 0
+		}
+		return false
+	}
 	return a == b
 }
 
